@@ -116,7 +116,7 @@ let () =
           let (((x, tree), text), status) = run vr pa pmatch prog fuel in
           (tree, text, status) in
         let (tree, text, status) = go vr in
-        let stxt = match status with Done -> "ok" | Failed -> "fail" | OutOfFuel -> "fuel" in
+        let stxt = match status with Done -> "ok" | Failed -> "fail" | Stuck -> "fail" | OutOfFuel -> "fuel" in
         let codes = match status, text with
           | Done, (_ :: _) -> String.concat "," (List.map (fun k -> string_of_int (int_of_n k)) text)
           | _, _ -> "-" in
@@ -126,7 +126,7 @@ let () =
           | [root] ->
             let ((_, wobs), wok) = walk vr root s0 in
             let (sobs, sok) = spec ByMatch (top s0) root in
-            let a = List.for_all (coded_choice_b pa pmatch prog) wobs && (wok = (status = Done) || status = OutOfFuel) in
+            let a = List.for_all (coded_choice_b pa pmatch prog) wobs && (wok = (status <> Failed) || status = OutOfFuel) in
             let b = wf ByMatch root in
             let c = glob_ok vr ByMatch (top s0) root in
             let d = (wobs = sobs) && (wok = sok) in
